@@ -67,6 +67,7 @@ type Script struct {
 	declSet map[string]bool
 	nfresh  int
 	obs     []*Obligation
+	bytes   int
 }
 
 func newScript() *Script {
@@ -120,12 +121,23 @@ func (s *Script) define(prefix, sort, body string) string {
 	if len(body) < 24 && !strings.Contains(body, " ") {
 		return body
 	}
-	if strings.Contains(body, "?") {
+	if hasBound(body) {
 		return body // mentions a quantifier-bound variable: cannot be named outside the quantifier
 	}
 	n := s.fresh(prefix)
 	s.cmds = append(s.cmds, Cmd{kind: cDef, name: n, text: fmt.Sprintf("(define-fun %s () %s %s)", n, sort, body)})
+	s.grow(len(body))
 	return n
+}
+
+// VC size cap: a function whose verification conditions exceed it is reported out of subset
+const maxScriptBytes = 400 << 20
+
+func (s *Script) grow(n int) {
+	s.bytes += n
+	if s.bytes > maxScriptBytes {
+		unsupported("verification conditions exceed %d MB", maxScriptBytes>>20)
+	}
 }
 
 func (s *Script) assume(body string) {
@@ -133,6 +145,7 @@ func (s *Script) assume(body string) {
 		return
 	}
 	s.cmds = append(s.cmds, Cmd{kind: cAssume, text: fmt.Sprintf("(assert %s)", body)})
+	s.grow(len(body))
 }
 
 func (s *Script) oblige(ob *Obligation) {
